@@ -14,7 +14,7 @@ LastPresent(tp, a, b) == CHOOSE i \in a..b : tp[i].p /\ \A j \in (i + 1)..b : ~t
 StartOf(tp, r) == <<tp[FirstPresent(tp, r.a, r.b)].sl, tp[FirstPresent(tp, r.a, r.b)].sc>>
 EndCol(tp, r) == tp[LastPresent(tp, r.a, r.b)].ec
 
-ExpStmts(e) == {[k |-> s.k, tag |-> s.tag, line |-> StartOf(e.tokpos, s)[1], sc |-> StartOf(e.tokpos, s)[2], ec |-> EndCol(e.tokpos, s),
+ExpStmts(e) == {[k |-> s.k, tag |-> s.tag, links |-> s.links, line |-> StartOf(e.tokpos, s)[1], sc |-> StartOf(e.tokpos, s)[2], ec |-> EndCol(e.tokpos, s),
                  prev |-> IF s.prev = <<>> THEN <<>> ELSE StartOf(e.tokpos, s.prev[1]),
                  first |-> StartOf(e.tokpos, s.first)] : s \in Rng(StmtInfo(e.src))}
 ExpVals(e) == LET rs == Ranges(e.src)
@@ -27,12 +27,16 @@ BagEq(p, q) == Len(p) = Len(q) /\ \A x \in Rng(p) \cup Rng(q) : Count(p, x) = Co
 \* the implicit variables of the homes (self, selected) are not variables of the body
 OwnVars(e) == {v \in Rng(e.facts.vars) : v.n \notin {"self", "selected", "Self", "Selected", "SELF", "SELECTED"}}
 
+RECURSIVE SumLinks(_)
+SumLinks(q) == IF q = <<>> THEN 0 ELSE Len(Head(q).links) + SumLinks(Tail(q))
 Conform(e) == IF e.err # "" THEN "prebuilds" ELSE FirstBad(<<
     <<"prebuilds", e.err = "">>,
     <<"consistent", e.consistent # "no">>,
     <<"one_subtype", \A i \in DOMAIN e.facts.subtype_counts : e.facts.subtype_counts[i] = 1>>,
     <<"entries", Len(Ranges(e.src)) = Len(Entries(e.src, HomeClass(e)))>>,
     <<"statements", Rng(e.facts.stmts) = ExpStmts(e) /\ Len(e.facts.stmts) = Cardinality(ExpStmts(e))>>,
+    \* every navigation step belongs to the chain of its statement (the chains themselves are part of "statements")
+    <<"links", e.facts.nlinks = SumLinks(StmtInfo(e.src))>>,
     <<"values", Rng(e.facts.vals) = ExpVals(e)>>,
     <<"variables", OwnVars(e) = ExpVars(e)>>,
     <<"parameters", BagEq(e.facts.ppairs, ParamPairs(e.src))>>,
